@@ -36,8 +36,13 @@ impl Default for MdCfg {
 
 /// Run `f` with a fresh storage, MainDevice and simulator. Virtual time restarts at 1 ms.
 pub fn with_sim<R>(net: Net, seed: u64, cfg: &MdCfg, f: impl for<'a> FnOnce(&'a MainDevice<'a>, &mut Sim<'a>) -> R) -> R {
+    with_sim_n::<SLOTS, R>(net, seed, cfg, f)
+}
+
+/// As `with_sim`, with `N` frame slots.
+pub fn with_sim_n<const N: usize, R>(net: Net, seed: u64, cfg: &MdCfg, f: impl for<'a> FnOnce(&'a MainDevice<'a>, &mut Sim<'a>) -> R) -> R {
     vclock::reset(1_000);
-    let storage = Box::new(PduStorage::<SLOTS, FRAME_MAX>::new());
+    let storage = Box::new(PduStorage::<N, FRAME_MAX>::new());
     let (tx, rx, pl) = storage.verif_try_split_with_len(cfg.frame_len).expect("split");
     let md = MainDevice::new(pl, cfg.timeouts, MainDeviceConfig { dc_static_sync_iterations: cfg.dc_static_sync_iterations, retry_behaviour: cfg.retries });
     let mut sim = Sim::new(tx, rx, net, seed);
